@@ -14,11 +14,13 @@ RULE = ('a scripted RNG replays chosen word streams and records what is consumed
         'ranges spanning zero, low = MIN, high = MAX; words random, extreme, and placed around the acceptance thresholds. (ii) '
         'unbiasedness by counting: for 8-bit types all 256 range sizes, for 16-bit types ~25-60 range sizes, for the 24-bit type a few '
         '(thorough) are enumerated over ALL first words of the type; the number of accepted first words per value must be equal and '
-        'nothing may fall outside. (iii) Standard / try_fill_slice / sub-slices: output bytes must equal the served bytes in order, '
+        'nothing may fall outside; on every wider type, for ranges of 1..40 values and every method, the word space is partitioned by binary search into the interval of accepted first words of each value (release build) and the interval lengths must be equal. (iii) Standard / try_fill_slice / sub-slices: output bytes must equal the served bytes in order, '
         'exactly len*BYTES consumed, neighbours untouched; one slice of more than 2^32 bits (> 512 MiB, verified inside the driver). Non-trivial: a first word was rejected, the range is full / a power of two '
         '+-1 / spans zero, histograms, slice fills of length != 1; distinct = distinct request lines')
-ASSUMPTIONS = ['unbiasedness is decided by exact preimage counting only on 8/16/24-bit instantiations; wider types get range membership, '
-               'byte-exact Standard/Fill checks and agreement across digit types (C16)']
+ASSUMPTIONS = ['unbiasedness is decided by exhaustive preimage counting on the 8/16/24-bit instantiations. On wider types it is decided for small ranges '
+               '(1..40 values) by the word-space probe, which presupposes that the accepted first words of each value form one interval (located by binary '
+               'search, confirmed on >= 200 sample words and the neighbourhood of every interval end); where that structure is not found nothing is judged. '
+               'Large ranges on wide types get range membership, byte-exact Standard/Fill checks and agreement across digit types (C16) only']
 
 
 def configs(tier):
@@ -39,7 +41,7 @@ def budget(cfg, tier):
 
 def mode_filter(cfg, group, mode):
     # 24-bit histograms (2^24 draws each) and the > 512 MiB slice fill only in the release build
-    return not ((group == 'hist' and cfg.bits == 24 and mode != 'rel') or (group == 'bigfill' and mode != 'rel'))
+    return not ((group == 'hist' and cfg.bits == 24 and mode != 'rel') or (group in ('bigfill', 'wprobe') and mode != 'rel'))
 
 
 def encode(cfg, group, args):
@@ -47,6 +49,8 @@ def encode(cfg, group, args):
         return [cfg.hex(args[0]), cfg.hex(args[1]), 's' + bytes(args[2]).hex()]
     if group == 'hist':
         return [cfg.hex(args[0]), cfg.hex(args[1]), 'd%d' % args[2]]
+    if group == 'wprobe':
+        return [cfg.hex(args[0]), cfg.hex(args[1])] + ['d%d' % a for a in args[2:]]
     if group == 'std':
         return ['s' + bytes(args[0]).hex()]
     if group == 'bigfill':
@@ -59,6 +63,8 @@ def decode(cfg, group, toks):
         return (cfg.val(int(toks[0][1:], 16)), cfg.val(int(toks[1][1:], 16)), bytes.fromhex(toks[2][1:]))
     if group == 'hist':
         return (cfg.val(int(toks[0][1:], 16)), cfg.val(int(toks[1][1:], 16)), int(toks[2][1:]))
+    if group == 'wprobe':
+        return (cfg.val(int(toks[0][1:], 16)), cfg.val(int(toks[1][1:], 16))) + tuple(int(t[1:]) for t in toks[2:])
     if group == 'std':
         return (bytes.fromhex(toks[0][1:]),)
     if group == 'bigfill':
@@ -151,6 +157,26 @@ def requests(cfg, rng, n, tier, part, nparts, st):
     for _ in range(m):
         low, high = bounds(cfg, rng)
         yield 'range', (low, high, words_for(cfg, rng, low, high))
+    if cfg.bits >= 24:
+        # word-space probes (release build): small ranges on wide types, every method; the size is bounded by the cost of 2*s*BITS draws
+        smax = max(2, min(40, 30000 // cfg.bits))
+        for j in range(6 if tier == 'quick' else 24):
+            size = rng.choice([x for x in (1, 2, 3, 5, 6, 7, 10, 12, 16, 17, 31, 33, 40) if x <= smax])
+            lr = rng.random()
+            if lr < 0.3:
+                low = cfg.min
+            elif lr < 0.55:
+                low = cfg.max - (size - 1)
+            elif lr < 0.8 and cfg.signed:
+                low = -rng.randrange(0, size)
+            else:
+                low = rng.randrange(cfg.min, cfg.max - size + 2)
+            method = (j + part) % 6
+            high = low + size - 1 + (0 if method % 2 == 1 else 1)
+            if high > cfg.max:
+                low -= 1
+                high -= 1
+            yield 'wprobe', (low, high, method, size, 200, rng.getrandbits(40))
     B = cfg.bytes
     for _ in range(max(5, m // 2)):
         yield 'std', (bytes(rng.getrandbits(8) for _ in range(2 * B)) if rng.random() < 0.8 else rng.choice((b'\x00', b'\xff', b'\x80', b'\x01')) * (2 * B),)
@@ -228,6 +254,45 @@ def model(cfg, ctx, group, args):
         if size == total:
             cls.add('histogram: full range')
         return exp, cls
+    if group == 'wprobe':
+        low, high, method, size, ns, sd = args
+        info = {}
+
+        def parse(o):
+            draws, (recognised, bad, first_bad), blob = o
+            recs = []
+            step = 1 + 2 * B
+            for k in range(size):
+                c = blob[k * step:(k + 1) * step]
+                recs.append((c[0] == 1, int.from_bytes(c[1:1 + B], 'little'), int.from_bytes(c[1 + B:], 'little')))
+            return draws, recognised, bad, recs
+
+        def f(o):
+            try:
+                draws, recognised, bad, recs = parse(o)
+            except Exception:
+                return False
+            if not recognised or bad or not all(r[0] for r in recs):
+                return True     # the interval structure was not found: nothing is judged (see rel below, which records it)
+            lens = {b - a + 1 for _, a, b in recs}
+            return len(lens) == 1
+
+        def rel(seen):
+            o = seen.get('wprobe')
+            try:
+                draws, recognised, bad, recs = parse(o)
+            except Exception:
+                return []
+            if recognised and not bad and all(r[0] for r in recs):
+                eq = len({b - a + 1 for _, a, b in recs}) == 1
+                return [('observed: word space of a %s type partitioned into %s intervals of accepted first words, one per value' % (
+                    'wide (> 64-bit)' if cfg.bits > 64 else ('24-bit' if cfg.bits == 24 else '<= 64-bit'), 'equal' if eq else 'UNEQUAL'), True, '')]
+            return [('observed: word-space structure not recognised (nothing judged)', True, '')]
+        exp['wprobe'] = Pred(f, 'if the accepted first words of every value form one interval each (located by binary search over the %d-bit word space and '
+                                'confirmed on sample words), all %d intervals have the same length' % (cfg.bits, size))
+        cls.add('word-space probe: range of %s on a %s type' % ('1 value' if size == 1 else ('2..7 values' if size <= 7 else '>= 8 values'),
+                                                                  '> 64-bit' if cfg.bits > 64 else '<= 64-bit'))
+        return exp, cls, rel
     if group == 'std':
         (words,) = args
         v = int.from_bytes(words[:B], 'little')
